@@ -33,5 +33,25 @@ CLAIMED = {
   "note": "Tied by correspondence and by an independent Python intact() on all 255 substitutions at every byte, every truncation and length-field perturbations of generated headers (hundreds of thousands of cases per run).",
   "technique": "Coq proof (soundness of the parser w.r.t. an independent integrity predicate); exhaustive single-byte-substitution differential run + independent oracle",
  },
+ "C05": {
+  "text": "Theorem header_roundtrip (all four levels, no partial cases): for every field record satisfying wf_fields -- any field values, any list and order of extended headers (all ten known types, duplicates, unknown types), level-0 Unix/OS-9 areas, directories, symlinks in both stored forms -- and any following data, the model of lha_file_header_read applied to encode_header f ++ data returns exactly normalise f and leaves the stream at the member's data. Closed under the global context. wf_fields excludes: level-2 OS-9/68k without extended headers (rejected by the C: stated length 24 < 26), level-1 headers with >= 2^22 extended headers (model fuel) or >= 4 GiB (unsigned offset wrap in the C).",
+  "note": "Spec S_Header.v (encoder + normalise) mirrors the Python reference lhabuild.py, which is the direct oracle of the check; mktime is a parameter of the theorem (executable instance mktime_utc used with TZ=UTC, checked against libc by every level-0/1 case).",
+  "technique": "Coq proof (round trip parse o encode = normalise, extended-header walker as a fold); differential run + independent reference normaliser on the C",
+ },
+ "C01": {
+  "text": "Partial. Proved: the fast LZ77 expansion equals the reference semantics; serialisation is blockwise; the bit reader returns exactly the next n <= 25 bits of the byte stream; tree_decode.c never faults and keeps the tree closed (C09). NOT yet proved: lhnew_roundtrip (decode(serialise sd) = expand(denote sd)) -- it is decided on every run by the direct oracle: streams produced by the extracted spec serialiser S_LhNew.v (every table form, block sizes 1..65535, window wrap) decoded by the C must equal the extracted spec expansion.",
+  "note": "The spec serialiser reproduces every real lh4/5/6/7/x/lk7 member of the repository's archives bit for bit, so wf_stream covers what real encoders write.",
+  "technique": "Spec-encoder round trip on the C (direct oracle) + differential run; Coq lemmas for bit reader, trees, LZ77 spec (round-trip theorem in progress)",
+ },
+ "C02": {
+  "text": "Partial. The LZHUF encoder-side algorithm is transliterated in Lzhuf.v (independent of the decoder); the theorem lh1_refines_lzhuf (lock-step through every increment, exchange and rebuild) is NOT yet proved. Decided on every run by the direct oracle: command lists engineered for frequency ties and several rebuilds are encoded by the extracted LZHUF and must decode in the C to their LZ77 expansion.",
+  "note": "Correspondence compares the model decoder (Lh1.v) with the C on the same streams.",
+  "technique": "LZHUF-transliteration round trip on the C (direct oracle) + differential run; simulation proof in progress",
+ },
+ "C04": {
+  "text": "Partial. Spec S_Pm.v (move-to-front with the PMarc order, pm1/pm2 serialisers incl. table re-reads in the middle of copies, wf predicates, zero-extension rule). Round-trip theorems NOT yet proved; decided on every run by the direct oracle on the C for streams from the extracted serialisers (every rebuild point x every split of a copy, every pm1 start header and width threshold +-1).",
+  "note": "The serialisers reproduce all 8 real pm1/pm2 members of the repository byte for byte.",
+  "technique": "Spec-encoder round trip on the C (direct oracle) + differential run; proofs in progress",
+ },
 }
 NOT_APPLICABLE = {("C%02d" % i): _PENDING for i in range(1, 21) if ("C%02d" % i) not in CLAIMED}
